@@ -165,7 +165,7 @@ Definition indirect (c : ctx) (it : item) : ires :=
   end.
 
 (* ---------- cursor ---------- *)
-(* after a failed parse the cursor is somewhere inside the item: nothing parses from there *)
+(* after a failed parse the cursor is somewhere inside the item (never used to parse from: see [step]) *)
 Inductive cursor := CAt (o : N) | CIn.
 
 Definition xinfo := (list xent * option obj * option N)%type.   (* XRefSectInfo *)
@@ -240,14 +240,18 @@ Fixpoint merge_ents (ents : list xent) (idset : list N) : list N * list xent :=
     else let '(s, k) := merge_ents r (x_num e :: idset) in (s, e :: k)
   end.
 
-(* one loop iteration after the cycle / bounds tests: parse_xref_section, and parse_xref_stream
-   once more FROM THE CURRENT CURSOR when that yields nothing; None = an exit_log! *)
+(* one loop iteration after the cycle / bounds tests: parse_xref_section and, when that yields
+   nothing, parse_xref_stream once more AT THE SPECIFIED OFFSET (commit 193f714: the cursor is set
+   back to `next` first; on the pinned tree the second attempt started wherever the failed parse had
+   left the cursor, so garbage glued in front of an xref stream was accepted).  None = an exit_log!.
+   Since then no behaviour depends on where a FAILED parse leaves the cursor; [cursor] / CIn only
+   record it. *)
 Definition step (f : file) (flen : N) (next : N) : option xinfo :=
   match parse_xref_section f flen next with
   | XRej => None
   | XRes _ (Some x) => Some x
-  | XRes cur1 None =>
-    match parse_xref_stream f cur1 with
+  | XRes _ None =>
+    match parse_xref_stream f (CAt next) with
     | (_, Some x) => Some x
     | (_, None) => None                                               (* No xref found *)
     end
